@@ -23,7 +23,7 @@ KERNEL int K(k_ones)(const size_t* shape, size_t dim, GEN_OUT){ return OBSV(view
 #define LIKE(D) KERNEL int K(k_full_like##D)(ARGS_IN, unsigned value, ARGS_OUT){ MK(D); return OBSV(view::full_like(a, value)); } \
   KERNEL int K(k_zeros_like##D)(ARGS_IN, ARGS_OUT){ MK(D); return OBSV(view::zeros_like(a)); } \
   KERNEL int K(k_ones_like##D)(ARGS_IN, ARGS_OUT){ MK(D); return OBSV(view::ones_like(a)); }
-FOR_DIMS(LIKE)
+FOR_DIMS4(LIKE)
 // arange on integer grids: (start, stop, step), (start, stop), (stop); the view is indexed with a scalar
 template <typename V> static inline int observe_1d(const V& v, size_t i, size_t* oshape, size_t* odim, int* out){
   *odim = put(nm::shape(v), oshape); *out = (int)v(i); return 1; }
